@@ -31,7 +31,12 @@ FailedRace(e) ==
   \cup (IF \A p \in 1..N(e) : (e.localB[p] # 0 /\ e.localB[p] # e.hub[p]) => e.hub2[p] = e.localB[p] THEN {} ELSE {"other-clients-commit-overwritten"})
   \cup (IF e.exitB = 0 THEN {} ELSE {"undisturbed-client-failed"})
 
-Failed(e) == IF e.kind = "seq" THEN FailedSeq(e) ELSE FailedRace(e)
+\* a large local tree (thousands of files): summarised by the harness (file count on the hub, byte-identical or not)
+FailedLarge(e) ==
+     (IF e.exit = 0 /\ e.landed THEN {} ELSE {"large-tree-not-landed"})
+  \cup (IF e.second.exit = 0 /\ e.second.sent = 0 /\ e.second.conflicts = 0 /\ e.second.unchanged THEN {} ELSE {"large-tree-second-run-fails"})
+
+Failed(e) == IF e.kind = "seq" THEN FailedSeq(e) ELSE IF e.kind = "large" THEN FailedLarge(e) ELSE FailedRace(e)
 Conform(e) == e.kind # "seq" \/ (e.hub2 = SeqResult(e) /\ e.sent = Cardinality({p \in 1..N(e) : e.local[p] # 0 /\ e.local[p] # e.hub[p]})
                                                   /\ e.skipped = Cardinality({p \in 1..N(e) : e.local[p] # 0 /\ e.local[p] = e.hub[p]}))
 
